@@ -28,6 +28,7 @@ import (
 	"github.com/fabiolb/fabio/config"
 	"github.com/fabiolb/fabio/internal/zzverif/simconsul"
 	"github.com/fabiolb/fabio/internal/zzverif/simcore"
+	"github.com/fabiolb/fabio/internal/zzverif/simhook"
 	"github.com/fabiolb/fabio/internal/zzverif/simnet"
 	"github.com/fabiolb/fabio/metrics"
 	"github.com/fabiolb/fabio/proxy"
@@ -177,9 +178,10 @@ func runC02Lin(r *simcore.Run) {
 	seq := 0
 	var ops []porcupine.Operation
 	next := func() int { seq++; return seq }
+	var readers []*simhook.Task
 	for i, reqs := range sc.Readers {
 		i, reqs := i, reqs
-		d.Sim.Spawn(fmt.Sprintf("reader%d", i), func() {
+		rt := d.Sim.Spawn(fmt.Sprintf("reader%d", i), func() {
 			for _, key := range reqs {
 				mu.Lock()
 				call := next()
@@ -221,6 +223,7 @@ func runC02Lin(r *simcore.Run) {
 				r.Tracef("reader%d %s -> v%d", i, key, ver)
 			}
 		})
+		readers = append(readers, rt)
 	}
 
 	// installs are observed at every quiescent state
@@ -253,8 +256,11 @@ func runC02Lin(r *simcore.Run) {
 		lastSeq = seq
 	}
 	done := d.Run(300000, func() bool {
-		if d.Sim.Pending() > 1 {
-			return false
+		// the readers are through (watchBackend, and whatever goroutines it starts, run for ever)
+		for _, rt := range readers {
+			if !rt.Done() {
+				return false
+			}
 		}
 		mu.Lock()
 		defer mu.Unlock()
